@@ -393,8 +393,14 @@ func (c *regexpSimplifyChecker) canMerge(x, y syntax.Expr) bool {
 // It errs on the side of "yes".
 func (c *regexpSimplifyChecker) canMatchEmpty(e syntax.Expr) bool {
 	switch e.Op {
+	case syntax.OpEscapeChar:
+		switch e.Value {
+		case `\b`, `\B`, `\A`, `\z`, `\Z`:
+			return true // zero-width assertions
+		}
+		return false
 	case syntax.OpChar, syntax.OpDot, syntax.OpCharClass, syntax.OpNegCharClass,
-		syntax.OpEscapeChar, syntax.OpEscapeMeta, syntax.OpEscapeOctal, syntax.OpEscapeHex, syntax.OpEscapeUni,
+		syntax.OpEscapeMeta, syntax.OpEscapeOctal, syntax.OpEscapeHex, syntax.OpEscapeUni,
 		syntax.OpPosixClass:
 		return false
 	case syntax.OpPlus, syntax.OpGroup, syntax.OpCapture, syntax.OpNamedCapture:
